@@ -161,15 +161,17 @@ example : regenVal ((buildExpr flatFc flatE flatSt).2.pop ++ [Flat.Row.brk 0]) 9
   regen_of_prebuild_values flatFc flatE flatSt (by decide) flatSt_symOK flatSt_tsv (by decide) _ 9 (by decide)
 
 /-- BODY level, for the sub-subset `coreB`: statement lists (any length) of return (with / without a `coreE` value),
-    break, continue, control stop, create without variable, delete, relate / unrelate (+ using) with instance names
-    other than `self`: reading the population `prebuildFlat` builds back with `regenFlat` (outer block R666, R602
-    first-statement filter, R603 subtype dispatch, R661 successor chain to its end) prints `genTokens`.
-    `okAll`: the builder is `ok` after every statement (= `flatOk`, the flag is never set back).
-    MISSING for the full `regen_of_prebuild`: assignment, create with variable, select from (+where), for each, while,
-    if / elif / else (nested blocks: R605 / R607 / R608 / R658 / R606, R682 / R683), `self` as an instance name. -/
-theorem regen_of_prebuild_partial (fc : FCtx) (a : Block) (hc : coreB a = true) (hok : okAll fc none a bodySt = true) :
+    assignment to a variable (first assignment declares the transient) or to an attribute with a `coreE` right-hand
+    side, break, continue, control stop, create with / without variable, select any|many from instances, delete,
+    relate / unrelate (+ using), with variable / instance names other than `self`: reading the population
+    `prebuildFlat` builds back with `regenFlat` (outer block R666, R602 first-statement filter, R603 subtype dispatch,
+    R661 successor chain to its end, variables through the symbol table) prints `genTokens`.
+    `flatOk`: the builder never failed (the flag is never set back: `okAll_of_flatOk`).
+    MISSING for the full `regen_of_prebuild`: select from … where, for each, while, if / elif / else
+    (nested blocks: R605 / R607 / R608 / R658 / R606, R682 / R683), `self` as an instance name. -/
+theorem regen_of_prebuild_partial (fc : FCtx) (a : Block) (hc : coreB a = true) (hok : flatOk fc a = true) :
     regenFlat (prebuildFlat fc a) = genTokens a :=
-  regenFlat_prebuildFlat fc a hc hok
+  regenFlat_prebuildFlat fc a hc (okAll_of_flatOk fc a hc hok)
 
 /-- the same for a statement list accepted in ANY sound builder state (inside a body, variables declared), stable
     under rows appended later that name none of its rows (`FreshC`) -/
@@ -188,6 +190,27 @@ def coreBody : Block :=
 
 example : regenFlat (prebuildFlat flatFc coreBody) = genTokens coreBody :=
   regen_of_prebuild_partial flatFc coreBody (by decide) (by decide)
+
+/-- from the start of a body to delete / relate: `create object instance d of DOG; select many ds from instances of DOG;
+    create object instance e of DOG; relate d to e across R2.'chases'; unrelate d from e across R2.'chases';
+    delete object instance e; return;` -/
+def coreBody2 : Block :=
+  .cons (.create "d" "DOG") (.cons (.selFrom "many" "ds" "DOG") (.cons (.create "e" "DOG")
+  (.cons (.relate "d" "e" "R2" "'chases'") (.cons (.unrelate "d" "e" "R2" "'chases'")
+  (.cons (.delete "e") (.cons (.ret none) .nil))))))
+
+example : regenFlat (prebuildFlat flatFc coreBody2) = genTokens coreBody2 :=
+  regen_of_prebuild_partial flatFc coreBody2 (by decide) (by decide)
+
+/-- `n = 0; create object instance d of DOG; d.Age = (n + 1) * 2; n = d.Age - n; return n;` -/
+def coreBody3 : Block :=
+  .cons (.assign (.var "n") (.int "0")) (.cons (.create "d" "DOG")
+  (.cons (.assign (.field (.var "d") "Age") (.bin (.bin (.var "n") "+" (.int "1")) "*" (.int "2")))
+  (.cons (.assign (.var "n") (.bin (.field (.var "d") "Age") "-" (.var "n")))
+  (.cons (.ret (some (.var "n"))) .nil))))
+
+example : regenFlat (prebuildFlat flatFc coreBody3) = genTokens coreBody3 :=
+  regen_of_prebuild_partial flatFc coreBody3 (by decide) (by decide)
 
 /-- a TEST of the full statement on one body (if / elif / else, while, for each, select, relate): evaluation, no proof -/
 def flatBody : Block :=
